@@ -7,6 +7,7 @@ mod c06;
 mod c10;
 mod c12;
 mod c13;
+mod c14;
 mod c16;
 mod c17;
 mod c18;
@@ -47,6 +48,7 @@ fn main() {
         let v: serde_json::Value = serde_json::from_str(&txt).expect("replay file is JSON");
         let code = match v["property"].as_str().unwrap_or("") {
             "C17" => c17::replay(&v),
+            "C14" => c14::replay(&v),
             "C13" => c13::replay(&v),
             "C12" => c12::replay(&v),
             "C10" => c10::replay(&v),
@@ -105,6 +107,7 @@ fn main() {
         "C10" => c10::run(tier),
         "C12" => c12::run(tier),
         "C13" => c13::run(tier),
+        "C14" => c14::run(tier),
         "C16" => c16::run(tier),
         "C17" => c17::run(tier),
         "C18" => c18::run(tier),
